@@ -267,6 +267,10 @@ func zzData(k int) (sig string, data []byte, nestsValue bool) {
 		return "[o]", d, false
 	case 18:
 		return "{so}", zzCat(zzLE32(1), zzStr(sym.Str("key", 1)), zzObjRef()), false
+	case 19:
+		// the object-reference STRUCT spelled out (what "o" is read as): a struct value like any other,
+		// it keeps its own signature
+		return ObjectReferenceSignature, zzObjRef(), false
 	default:
 		n := count(1)
 		d := zzLE32(uint32(n))
@@ -283,7 +287,7 @@ func zzObjRef() []byte {
 	return zzCat(zzLE32(0), zzLE32(0), zzLE32(0), zzLE32(0), zzLE32(sym.U32("svc")), zzLE32(sym.U32("obj")))
 }
 
-const zzNSigs = 19
+const zzNSigs = 20
 
 // C02Opaque: values of composite signatures carried opaquely round-trip byte for byte.
 func C02Opaque() {
@@ -449,4 +453,72 @@ func C02LongList() {
 	}
 	zzRoundTrip(v, "long-list")
 	sym.Reach("long-list-done")
+}
+
+// zzFragReader delivers its data k bytes at a time; with eofWithData the last fragment comes together
+// with io.EOF (both are what the io.Reader contract allows a stream to do).
+type zzFragReader struct {
+	data        []byte
+	k           int
+	eofWithData bool
+}
+
+func (f *zzFragReader) Read(p []byte) (int, error) {
+	if len(f.data) == 0 {
+		return 0, io.EOF
+	}
+	n := f.k
+	if n > len(p) {
+		n = len(p)
+	}
+	if n > len(f.data) {
+		n = len(f.data)
+	}
+	copy(p, f.data[:n])
+	f.data = f.data[n:]
+	if len(f.data) == 0 && f.eofWithData {
+		return n, io.EOF
+	}
+	return n, nil
+}
+
+// C02Fragmented: the value crosses a stream that fragments it (1, 2 or 3 bytes per Read); the stream
+// either goes on after the value (trailing bytes must stay unread) or ends exactly with it, the last
+// fragment arriving together with io.EOF: every scalar kind, a list and an opaque struct decode to
+// the same value and re-encode identically.
+func C02Fragmented() {
+	var v Value
+	kind := sym.Choose("kind", 15)
+	switch kind {
+	case 13:
+		v = List([]Value{Int(sym.I32("e0")), String(sym.Str("e1", 2)), Long(sym.I64("e2"))})
+	case 14:
+		v = Opaque("(iI)", zzCat(zzLE32(sym.U32("o0")), zzLE32(sym.U32("o1"))))
+	default:
+		v, _ = zzScalar(kind, 2)
+	}
+	var buf bytes.Buffer
+	sym.Assert(v.Write(&buf) == nil, "fragmented/encode-ok")
+	enc := append([]byte{}, buf.Bytes()...)
+	r := &zzFragReader{k: 1 + sym.Choose("fragment-size", 3), eofWithData: sym.Bool("stream-ends-with-the-value")}
+	if r.eofWithData {
+		r.data = append([]byte{}, enc...)
+	} else {
+		r.data = append(append([]byte{}, enc...), 0xA5, 0x5A, 0xA5)
+	}
+	back, err := NewValue(r)
+	sym.Assert(err == nil, "fragmented/decode-ok")
+	if err != nil {
+		return
+	}
+	if r.eofWithData {
+		sym.Assert(len(r.data) == 0, "fragmented/consumed-exactly")
+	} else {
+		sym.Assert(len(r.data) == 3, "fragmented/consumed-exactly")
+	}
+	sym.Assert(back.Signature() == v.Signature(), "fragmented/same-signature")
+	var buf2 bytes.Buffer
+	sym.Assert(back.Write(&buf2) == nil, "fragmented/reencode-ok")
+	sym.Assert(sym.EqBytes(buf2.Bytes(), enc), "fragmented/reencode-identical")
+	sym.Reach("fragmented-done")
 }
